@@ -242,6 +242,19 @@ pub fn main(args: &Args) -> i32 {
             }
         };
     }
+    // harvested family: the str-mode definitions that ship with the repository (incl. the must-fail test data)
+    for h in model::harvest::harvest() {
+        if !h.def.utf8 {
+            continue;
+        }
+        run.count("harvested_defs", 1);
+        if let Err(msg) = check(&h.def, &mut run) {
+            run.violations = 1;
+            report_violation(prop, &args.replay_dir, &json!({"property": prop, "tier": "G", "origin": h.origin, "def": h.def, "rendered_rust": model::prep::render(&h.def), "findings": [{"property": prop, "what": msg}]}));
+            run.write_evidence(&args.evidence);
+            return 1;
+        }
+    }
     let cases = if args.cases > 0 { args.cases } else if args.thorough() { 40000 } else { 2500 };
     let res = drive(&strategy(), cases, args.seed ^ 0xC04, 600, &mut run, |d, run| check(d, run));
     let code = match res {
